@@ -16,13 +16,16 @@ import (
 func init() { register(&Spec{ID: "C05", Targets: allTargets, Run: runC05}) }
 
 func runC05(c *core.Ctx) {
-	runFixtures(c, "drop", "valid")
+	runFixtures(c, "drop", "valid", "dirnamed")
 	c.Explain("Structural clauses of C05 decided from source by an abstract interpretation of error values (nil / *PathError or *LinkError with the provenance of each path field / error of a file-system interface call with the provenance of the path it was given / raw), with per-function summaries substituted at call sites, on linux, windows and js/wasm builds, for every method of every FS type that implements an io/fs.FS / hackpadfs.*FS method and every package-level helper taking an FS: (R05.1) no raw error (bare sentinel, errors.New/fmt.Errorf, store/record/handler/io error) is returned: every possibly non-nil error is a *PathError (single-name operations) or *LinkError (Rename, Symlink), the error of an interface call that received the caller's name, or such an error passed through a translator; (R05.2) path fields come from the caller's name (the parameter, or a path derived from it), never the empty constant, a Mount sub-path (inner namespace), an OS path, a base name or an untracked string; an error of a call made with an inner or OS path must pass through the translator with the (name, subPath) pair of the Mount call that produced the inner path; LinkError.Old/New come from the old/new parameter respectively; (R05.3) the mount translator can produce a path longer than its input (it concatenates a name-derived prefix) — a trim-only translator cannot be right for a real mount point; (R05.4 = R08.3, checked under C08). NOT claimed: that the path equals the one package os would name; sentinel agreement with os per situation; correctness of the translator's string arithmetic beyond R05.3.")
 	c.Assume("A1: an interface-dispatched FS method returns *PathError/*LinkError naming the path it was given", "A2: standard os functions return *PathError/*LinkError/*SyscallError naming the OS path they were given",
 		"errors of File methods (handle.Stat/Close/Read…) are the handle's own and accepted as they are")
 	c.RuleDoc("R05.1", "typed errors only (no raw error leaves an FS-level entry point)")
 	c.RuleDoc("R05.2", "path fields in the caller's namespace; inner/OS-namespace errors translated with the right pair")
 	c.RuleDoc("R05.3", "mount translator is expansive")
+	c.RuleDoc("R05.9", "the error of a recursive call on other names is wrapped again under the caller's names")
+	c.RuleDoc("R05.8", "outside MkdirAll/RemoveAll no error is built with the parent of a name as its path")
+	c.RuleDoc("R05.7", "a missing name below a regular file is told apart from a missing name (ErrNotDir vs ErrNotExist)")
 	c.RuleDoc("R05.6", "a write-back error is wrapped under the path of the record that was written")
 	c.RuleDoc("R05.5", "cutting a directory prefix handles the directory itself")
 	c.RuleDoc("R05.4", "no path field of a PathError/LinkError can be the empty string")
@@ -54,6 +57,11 @@ func runC05(c *core.Ctx) {
 		r05NonEmpty(c, p)
 		r05TrimHandlesRoot(c, p)
 		r05SaveNamesRecord(c, p)
+		r05NoParentNamed(c, p)
+		r05RecursionRewraps(c, p)
+		if p.Target == load.Linux {
+			r05NotDirThroughFile(c, p, "R05.7")
+		}
 	}
 	c.Floor("R05.1", 60)
 	c.Floor("R05.2", 60)
@@ -61,6 +69,7 @@ func runC05(c *core.Ctx) {
 	c.Floor("R05.4", 35)
 	c.Floor("R05.5", 1)
 	c.Floor("R05.6", 3)
+	c.Floor("R05.9", 2)
 }
 
 func nameParamIdx(fn *ssa.Function) []int {
@@ -545,6 +554,13 @@ func r05TrimHandlesRoot(c *core.Ctx, p *load.Program) {
 			if !ok || !ssax.CalleeIs(cl, "strings", "TrimPrefix") {
 				return
 			}
+			if ts, isCall := cl.Call.Args[1].(*ssa.Call); isCall && ssax.CalleeIs(ts, "strings", "TrimSuffix") {
+				// a directory prefix obtained by cutting the name off the full inner path ("base/name" minus "name" is
+				// "base/"): the path that IS the base directory has no such prefix and stays in the inner namespace
+				key := fname(fn) + "|" + ord.next("trim-dir-prefix")
+				c.Bad("R05.5", key, p.Pos(cl.Pos()), fmt.Sprintf("%s cuts a directory prefix computed with strings.TrimSuffix off %s without handling the case that the path is that directory itself: when the failing path is the base directory of the view (a base that is a regular file, a base that does not exist), TrimPrefix leaves it as it is and the caller is told the inner name instead of \".\"", fname(fn), vname(cl.Call.Args[0])))
+				return
+			}
 			bo, ok := cl.Call.Args[1].(*ssa.BinOp)
 			if !ok || bo.Op != token.ADD {
 				return
@@ -682,5 +698,171 @@ func r05SaveNamesRecord(c *core.Ctx, p *load.Program) {
 	}
 	if n == 0 {
 		c.Hard("anchor: no write-back error reaches the package's PathError wrapper")
+	}
+}
+
+// r05NotDirThroughFile (R05.7 / R01.11): os answers ENOTDIR for a name that leads through a regular file
+// ("file/x"), which does not match ErrNotExist. The key-value FS can only tell the two apart by looking at the
+// ancestors of a missing name: its by-name look-up (Stat) must reach a look-up of path.Dir of the name.
+func r05NotDirThroughFile(c *core.Ctx, p *load.Program, rule string) {
+	sh := findKVShape(p)
+	if sh == nil || sh.methods["Stat"] == nil {
+		c.Hard("anchor: keyvalue.FS.Stat")
+		return
+	}
+	fn := sh.methods["Stat"]
+	seen := map[*ssa.Function]bool{}
+	found := false
+	var visit func(f *ssa.Function, d int)
+	visit = func(f *ssa.Function, d int) {
+		if f == nil || seen[f] || d > 4 || f.Blocks == nil {
+			return
+		}
+		seen[f] = true
+		ssax.InstrsDeep(f, func(_ *ssa.Function, ins ssa.Instruction) {
+			cl, ok := ins.(ssa.CallInstruction)
+			if !ok {
+				return
+			}
+			if ssax.CalleeIs(cl, "path", "Dir") || ssax.CalleeIs(cl, "path", "Split") {
+				found = true
+			}
+			if callee := ssax.StaticCallee(cl); callee != nil && p.InModule(callee) {
+				visit(callee, d+1)
+			}
+		})
+	}
+	visit(fn, 0)
+	key := "(*keyvalue.FS).Stat|missing-name-classifies-ancestors"
+	c.Check(found, rule, key, p.Pos(fn.Pos()), "the by-name look-up looks at the ancestors of a missing name",
+		"the key-value FS answers a missing name with the store's ErrNotExist without looking at its ancestors: for a name that leads through a regular file (Stat/Open/Remove/Chmod \"file/x\", Rename \"file/x\" -> \"dir/y\") os fails with ENOTDIR, which does not match ErrNotExist; as a consequence hackpadfs.RemoveAll(fs, \"file/x\") returns nil where os.RemoveAll fails")
+}
+
+// dirNamedSites (R05.8): a *PathError/*LinkError whose path field is path.Dir(x) — the parent of a name — built
+// outside the functions whose os counterparts name ancestors (MkdirAll, RemoveAll and what only they reach by name):
+// os names the path it was asked for (open a/b/f: ...), not the directory it could not prepare on the way.
+type dirNamedSite struct {
+	fn  *ssa.Function
+	pos token.Pos
+}
+
+func dirNamedSites(p *load.Program, fns []*ssa.Function) []*dirNamedSite {
+	var out []*dirNamedSite
+	for _, fn := range fns {
+		if fn.Blocks == nil {
+			continue
+		}
+		root := fn
+		for root.Parent() != nil {
+			root = root.Parent()
+		}
+		ln := strings.ToLower(root.Name())
+		if strings.Contains(ln, "mkdirall") || strings.Contains(ln, "removeall") || strings.Contains(ln, "missingdir") {
+			continue
+		}
+		ssax.Instrs(fn, func(ins ssa.Instruction) {
+			st, ok := ins.(*ssa.Store)
+			if !ok {
+				return
+			}
+			fa, ok := st.Addr.(*ssa.FieldAddr)
+			if !ok {
+				return
+			}
+			n := ssax.StructOfFieldAddr(fa)
+			if n == nil || n.Obj().Pkg() == nil || n.Obj().Pkg().Path() != "io/fs" && n.Obj().Pkg().Path() != "os" || n.Obj().Name() != "PathError" && n.Obj().Name() != "LinkError" {
+				return
+			}
+			if !isStr(st.Val.Type()) {
+				return
+			}
+			v := st.Val
+			if u, ok := v.(*ssa.UnOp); ok && u.Op == token.MUL {
+				if a, ok := u.X.(*ssa.Alloc); ok {
+					if stores, esc := ssax.CellStores(a); !esc && len(stores) == 1 {
+						v = stores[0].Val
+					}
+				}
+			}
+			if cl, ok := v.(*ssa.Call); ok && ssax.CalleeIs(cl, "path", "Dir") {
+				out = append(out, &dirNamedSite{fn: fn, pos: st.Pos()})
+			}
+		})
+	}
+	return out
+}
+
+func r05NoParentNamed(c *core.Ctx, p *load.Program) {
+	var fns []*ssa.Function
+	for _, fn := range p.SrcFuncs() {
+		root := fn
+		for root.Parent() != nil {
+			root = root.Parent()
+		}
+		if !skipPkgForNames(root) {
+			fns = append(fns, fn)
+		}
+	}
+	ord := ordinals{}
+	sites := dirNamedSites(p, fns)
+	for _, s := range sites {
+		c.Bad("R05.8", ord.next(fname(s.fn)+"|names-parent"), p.Pos(s.pos), fmt.Sprintf("%s builds an error whose path field is path.Dir of a name: the caller of a single-name operation is told the parent directory instead of the name it passed (os: 'open a/b/f: not a directory')", fname(s.fn)))
+	}
+	if len(sites) == 0 {
+		c.OK("R05.8", "no-parent-named", "", "no *PathError/*LinkError outside MkdirAll/RemoveAll is built with path.Dir of a name as its path")
+	}
+}
+
+// r05RecursionRewraps (R05.9): an operation that calls itself on other names than its own (children of a directory)
+// does not return that call's error as it is: the *PathError/*LinkError names the child, the caller must be told
+// the names it passed.
+func r05RecursionRewraps(c *core.Ctx, p *load.Program) {
+	n := 0
+	for _, fn := range p.SrcFuncs() {
+		if fn.Parent() != nil || skipPkgForNames(fn) || ssax.ErrorResultIndex(fn.Signature) < 0 {
+			continue
+		}
+		eidx := ssax.ErrorResultIndex(fn.Signature)
+		ord := ordinals{}
+		ssax.Instrs(fn, func(ins ssa.Instruction) {
+			cl, ok := ins.(*ssa.Call)
+			if !ok || ssax.StaticCallee(cl) != fn {
+				return
+			}
+			other := false
+			for i, a := range cl.Call.Args {
+				if i < len(fn.Params) && isStr(a.Type()) && a != ssa.Value(fn.Params[i]) {
+					other = true
+				}
+			}
+			if !other {
+				return
+			}
+			ev := ssax.ErrorValueOf(cl)
+			if ev == nil {
+				return
+			}
+			n++
+			key := fname(fn) + "|" + ord.next("recursive-error-rewrapped")
+			direct := ""
+			for _, r := range ssax.Returns(fn) {
+				e := resolveSpilled(r.Results[eidx], r)
+				if e == ev {
+					direct = p.Pos(r.Pos())
+				}
+				if ph, ok := e.(*ssa.Phi); ok {
+					for _, ed := range ph.Edges {
+						if ed == ev {
+							direct = p.Pos(r.Pos())
+						}
+					}
+				}
+			}
+			c.Check(direct == "", "R05.9", key, p.Pos(cl.Pos()), "the error of the recursive call on other names is wrapped again under this call's names",
+				fmt.Sprintf("%s returns at %s the error of its recursive call on other names (children) as it is: the error names the child that failed (Old=\"d/c\", New=\"e/c\") instead of the names the caller passed (\"d\", \"e\")", fname(fn), direct))
+		})
+	}
+	if n == 0 {
+		c.Hard("anchor: no recursive file-system operation on derived names found")
 	}
 }
